@@ -58,7 +58,7 @@ func (Engine) Meta() simrt.Meta {
 		},
 		RealCode:    []string{"cmd/emerge/main.go (rewritten entry only)", "internal/command", "internal/generate/golang (+ templates, text/template)", "internal/ebnf/*", "internal/regex/*", "moorara/algo", "flag, charm/flagit"},
 		Stubs:       []string{"operating system: file system, process args/exit/std streams (simos)", "terminal UI (recording simui)", "second emerge instance scheduling (tape-driven, switch points = file-system operations)"},
-		FaultKinds:  []string{"fault_write_ENOSPC", "fault_write_EIO", "fault_mkdir_EACCES", "fault_mkdir_EROFS", "fault_mkdir_ENOSPC", "fault_openfile_EACCES", "fault_openfile_EMFILE", "fault_openfile_ENOSPC", "fault_open_EACCES", "fault_read_EIO", "fault_stat_EACCES", "fault_stat_EIO", "fault_getwd_ENOENT", "foreign_create_target_dir", "foreign_remove_out_dir", "foreign_create_target_file", "foreign_replace_out_with_file", "second_instance"},
+		FaultKinds:  []string{"fault_write_ENOSPC", "fault_write_EIO", "fault_mkdir_EACCES", "fault_mkdir_EROFS", "fault_mkdir_ENOSPC", "fault_openfile_EACCES", "fault_openfile_EMFILE", "fault_openfile_ENOSPC", "fault_open_EACCES", "fault_read_EIO", "fault_stat_EACCES", "fault_stat_EIO", "fault_getwd_ENOENT", "fault_close_EIO", "fault_close_EDQUOT", "fault_sync_EIO", "fault_sync_ENOSPC", "fault_rename_EACCES", "fault_rename_EXDEV", "fault_rename_ENOSPC", "fault_remove_EACCES", "fault_lstat_EACCES", "foreign_create_target_dir", "foreign_remove_out_dir", "foreign_create_target_file", "foreign_replace_out_with_file", "second_instance"},
 		CaseTimeout: 240 * time.Second,
 	}
 }
@@ -842,6 +842,25 @@ func (e Engine) Run(t *simrt.Tape, c simrt.Case, x *simrt.Ctx) *simrt.Result {
 			sites = append(sites, site{op: "stat", n: n, kinds: []string{"EACCES", "EIO"}})
 		case "getwd":
 			sites = append(sites, site{op: "getwd", n: n, kinds: []string{"ENOENT"}})
+		case "lstat":
+			sites = append(sites, site{op: "lstat", n: n, kinds: []string{"EACCES", "EIO"}})
+		case "sync":
+			sites = append(sites, site{op: "sync", n: n, kinds: []string{"EIO", "ENOSPC"}})
+		case "close":
+			// a write error reported late, at close (NFS, quota)
+			sites = append(sites, site{op: "close", n: n, kinds: []string{"EIO", "EDQUOT"}})
+		case "rename":
+			sites = append(sites, site{op: "rename", n: n, kinds: []string{"EACCES", "EXDEV", "ENOSPC"}})
+		case "link":
+			sites = append(sites, site{op: "link", n: n, kinds: []string{"EPERM", "EXDEV"}})
+		case "remove", "removeall":
+			sites = append(sites, site{op: ev.Op, n: n, kinds: []string{"EACCES", "EBUSY"}})
+		case "chmod", "chown", "chtimes", "truncate":
+			sites = append(sites, site{op: ev.Op, n: n, kinds: []string{"EPERM"}})
+		case "mkdirall":
+			sites = append(sites, site{op: "mkdirall", n: n, kinds: []string{"EACCES", "EROFS", "ENOSPC"}})
+		case "create", "writefile":
+			sites = append(sites, site{op: ev.Op, n: n, kinds: []string{"EACCES", "EMFILE", "ENOSPC"}})
 		}
 	}
 	// foreign-actor races: before each operation of the fault-free history
